@@ -70,7 +70,7 @@ Print Assumptions C26_compress_transparent.
 (* … in particular the LZW codec of common.Compress / common.Decompress (C25) *)
 Theorem C26_compress_transparent_lzw : forall b,
   of_compressed Model_Lzw.decompress (compressed_bytes Model_Lzw.compress b) = Some b.
-Proof. exact (compress_transparent _ _ lzw_roundtrip). Qed.
+Proof. exact compress_transparent_lzw. Qed.
 Print Assumptions C26_compress_transparent_lzw.
 
 (* blooms built from logs fit the 256 bytes of LogBytes *)
